@@ -107,6 +107,8 @@ def run(ctx, thorough=False):
     ctx.rule('R07.2c', 'the final comparison of the circular distance with the tolerance includes the boundary (<=)')
     ctx.rule('R07.3', 'glue: compliant = all_i inside(angle_i, centers[i], tolerances[i]); filter keeps compliant elements in order; constructors store compute_centers(from,to)')
     cc, ib = roles(ctx)
+    ctx.rule('R07.4', 'constants of the centre computation and of the membership test that stand for pi or 2*pi are exact')
+    util.pi_constants(ctx, 'R07.4', [cc, ib])
     deg = math.pi / 180
     if ctx.tier == 'thorough':
         ft = grid(-4 * math.pi, 4 * math.pi, 15 * deg)
